@@ -98,6 +98,37 @@ def register(run, prop):
     if prop in ("C10", "C16", "C19"):
         W.ob_receive_cancel_safe(run, "O%d.w4" % n, "the node's loops select! over several receive() futures: whenever another branch is ready first the pending receive is dropped - "
                                  "datagrams it had already drained from the socket but not yet queued are lost for good (shreds never forwarded, votes never counted)")
+    if prop in ("C04", "C13", "C15", "C18", "C19", "C12", "C14"):
+        # "rejected with a verdict / reported / declined" means: not answered with a panic - the reviewed panic-site closure of the network-facing tasks (a new
+        # diagnostic line that indexes or unwraps is a new panic site)
+        from . import C10
+        C10.ob_panic_closure(run, "O%d.pan" % n)
+    if prop == "C01":
+        from . import C06
+        C06.ob_bookkeeping(run, "O1.7g")
+    if prop == "C06":
+        from . import C04
+        with run.restricted(lambda oid: oid == "O6.12.1"):
+            C04.check(run, prefix="O6.12")
+    if prop == "C07":
+        from . import C08
+        C08.ob_direct_finalization(run, "O7.18")
+        # "finalized b is announced, whatever order the certificates arrive in": direct finalization is reported exactly for the displaced statuses that justify it,
+        # and the certificate arms of the pool call the tracker function of their own kind
+        C08.ob_direct_reporting(run, "O7.18b")
+        C08.ob_cert_wiring(run, "O7.18c")
+    if prop == "C12":
+        from . import C14
+        with run.restricted(lambda oid: oid == "O12.15.3"):
+            C14.check(run, prefix="O12.15", compose=False)
+    if prop == "C15":
+        from . import C14
+        C14.ob_create_proof_guard(run, "O15.10")
+    SEL = {"C10": list(W.FAIR_SELECTS), "C14": ["repair::Repair::repair_loop"], "C05": ["consensus::votor::Votor::voting_loop"], "C18": ["consensus::votor::Votor::voting_loop"],
+           "C16": ["consensus::Alpenglow::message_loop"], "C13": ["consensus::Alpenglow::message_loop"]}
+    if prop in SEL:
+        W.ob_select_fair(run, "O%d.w5" % n, SEL[prop], "an attacker (or plain load) can keep one source permanently ready: with `biased;` the branches behind it - retry timers, requests from the pool, "
+                         "votes - are starved for as long as that lasts")
     if prop in WIRING:
         parts, with_run = WIRING[prop]
         if parts:
